@@ -3,18 +3,34 @@
 
       with PoolExecutor(max_workers) as executor:
           try:
-              for ele in generator:                        -- pull
+              generator = iter(generator)
+              while True:
+                  try:
+                      ele = next(generator)                -- pull
+                  except StopIteration:
+                      break
+                  except Exception:                        -- the source raised `e`
+                      while not q.empty():
+                          yield result(q.get())            -- drainErr e / yieldedErr e
+                      raise                                -- drainErr e with q empty: exitWait (some e)
                   if q.qsize() >= buffer_size:
                       yield result(q.get())                -- waitHead / yielded
                   q.put(submit(executor, function, ele))   -- submit
               while not q.empty():
-                  yield result(q.get())                    -- drain
+                  yield result(q.get())                    -- drain / yielded none
           except GeneratorExit:
               terminate(executor, q); raise                -- cancel loop
           except BaseException:
               if backend == "mp": terminate(executor, q)   -- pathos only: part of exitWait (`killOnError`)
               raise
       (executor.__exit__)                                  -- exitWait
+
+  When the source raises, the results that are already queued belong to EARLIER elements: they
+  are delivered first, in order (error drain, `drainErr e`), and only then the source's exception
+  is re-raised.  If one of those results raises `e'`, then `e'` travels out instead (exactly as in
+  the normal drain loop); a `close()` at one of these yields cancels as usual.
+  (Before the repair the source's exception left the loop at once and the queued results were
+  dropped: known defect F17, now gone, see `lpm_source_error_delivers_all`.)
 
   `q` is touched by the consumer thread only, so the interleaving that matters is exactly
   "future changes state" versus "consumer step"; that is the granularity of this model.
@@ -57,6 +73,8 @@ inductive CPc (α β ε : Type) where
   | yielded (x : Option α)       -- suspended at a `yield` (x = element still to be submitted)
   | submit (x : α)               -- `q.put(submit(...))`
   | drain                        -- `while not q.empty(): yield result(q.get())`
+  | drainErr (e : ε)             -- the same loop in `except Exception:` (the source raised `e`)
+  | yieldedErr (e : ε)           -- suspended at a `yield` of the error drain
   | cancel                       -- the loop inside `terminate`
   | exitWait (r : Option ε) (closed : Bool)   -- executor.__exit__ ; r = exception travelling out
   | done (r : Option ε) (closed : Bool)
@@ -125,7 +143,7 @@ def step {α β ε} (s : St α β ε) : Tid → Option (St α β ε)
       | [] =>
         match s.ending with
         | none => some { s with c := .drain }
-        | some e => some { s with c := .exitWait (some e) false }     -- the source raises: buffered results are dropped (F17)
+        | some e => some { s with c := .drainErr e }     -- the source raises: deliver what is queued, then raise
     | .waitHead x =>
       match headDone s with
       | some (.ok v, rest) => some { s with q := rest, delivered := s.delivered ++ [v], c := .yielded (some x) }
@@ -141,6 +159,15 @@ def step {α β ε} (s : St α β ε) : Tid → Option (St α β ε)
         | some (.ok v, rest) => some { s with q := rest, delivered := s.delivered ++ [v], c := .yielded none }
         | some (.error e, rest) => some { s with q := rest, c := .exitWait (some e) false }
         | none => none
+    | .drainErr e =>
+      match s.q with
+      | [] => some { s with c := .exitWait (some e) false }          -- `raise`: the source's exception
+      | _ :: _ =>
+        match headDone s with
+        | some (.ok v, rest) => some { s with q := rest, delivered := s.delivered ++ [v], c := .yieldedErr e }
+        | some (.error e', rest) => some { s with q := rest, c := .exitWait (some e') false }
+        | none => none
+    | .yieldedErr _ => none
     | .cancel =>
       match s.termKind with
       | .cancelQueued =>
@@ -171,10 +198,12 @@ def step {α β ε} (s : St α β ε) : Tid → Option (St α β ε)
     match s.c with
     | .yielded (some x) => some { s with c := .submit x }
     | .yielded none => some { s with c := .drain }
+    | .yieldedErr e => some { s with c := .drainErr e }
     | _ => none
   | .close =>
     match s.c with
     | .yielded _ => some { s with c := .cancel }
+    | .yieldedErr _ => some { s with c := .cancel }
     | _ => none
   | .start =>
     if numRunning s < s.workers then
